@@ -40,6 +40,23 @@ def minor_instance(r, gdesc, with_phase=None):
     cn_sol = CNSolution(gene, 0, structure)
     planted = instances.plant_alleles(r, gene, structure)
     table = instances.plant_table(r, gene, cn_sol, planted, with_minors=True, noise=r.random() < 0.7)
+    # a function-altering variant that no planted allele carries, on (nearly) all copies: the major stage hands it over
+    # as a novel core variant and the refinement has to put it on two or more copies
+    if r.random() < 0.25 and len(structure) >= 2:
+        have = {m.pos for mj, mi in planted for m in list(gene.alleles[mj].func_muts) + list(gene.alleles[mj].minors[mi].neutral_muts)}
+        cand = [m for m in gene.mutations if gene.is_functional(m) and m[0] not in have and m[1][:3] not in ("ins", "del") and len(m[1]) == 3
+                and cn_sol.position_cn(m[0]) >= 2]
+        refs = {t[0]: t for t in table if t[1] == "_"}
+        cand = [m for m in cand if m[0] in refs and not any(t[0] == m[0] and t[1] != "_" for t in table)]
+        if cand:
+            m = r.choice(cand)
+            t = refs[m[0]]
+            n = sum(q[2] for q in t[2])
+            keep = 0 if r.random() < 0.6 else max(1, n // 10)
+            table.remove(t)
+            table.append([m[0], m[1], [[60, 40, n - keep]]])
+            if keep:
+                table.append([m[0], "_", [[60, 40, keep]]])
     pdesc = {}
     if r.random() < 0.3:
         pdesc["minor_add"] = r.choice(["1", "0.5", "2"])
